@@ -13,7 +13,7 @@ PID = "C03"
 ANCHORS = ["pyoma2.functions.ssi:SSI_multi_setup", "pyoma2.functions.gen:pre_multisetup", "pyoma2.functions.ssi:build_hank",
            "pyoma2.functions.ssi:SSI_poles", "pyoma2.algorithms.ssi:SSIdat_MS.run",
            "pyoma2.setup.multi:MultiSetup_PreGER._initialize_data"]
-REQUIRED_MONITORS = ["truth@PreGER.cov_mm", "truth@PreGER.dat", "truth@SSI_multi_setup", "gain-metamorphic", "split@pre_multisetup(direct)",
+REQUIRED_MONITORS = ["shared-object history", "truth@PreGER.cov_mm", "truth@PreGER.dat", "truth@SSI_multi_setup", "gain-metamorphic", "split@pre_multisetup(direct)",
                      "split@pre_multisetup(every call made by MultiSetup_PreGER)"]
 ALL_STATES = ["refs listed out of order", "refs differ between setups", "complex shapes", "real shapes", "br=nu+1", "br>nu+1"]
 REQUIRED_STATES = ["refs listed out of order", "refs differ between setups", "br=nu+1"]
@@ -119,6 +119,20 @@ def run_identify(ctx, rng):
                 em = 1 - max(gen.mac(R.Phi[:, k], PhiG[:, k]), gen.mac(R.Phi[:, k], np.conj(PhiG[:, k])))
                 ctx.check(abs(R.Fn[k] - fn[k]) / fn[k] <= tol and abs(R.Xi[k] - xi[k]) <= tol and em <= tol, "ms:mpe_accuracy",
                           lambda: f"mpe mode {k}: f {R.Fn[k]} vs {fn[k]}, xi {R.Xi[k]} vs {xi[k]}, 1-MAC {em:.2e}")
+    # history: both algorithms on ONE object, run twice; the shared split data must stay untouched and the results exact
+    ms = MultiSetup_PreGER(fs=fs, ref_ind=[list(r) for r in reflist], datasets=[d.copy() for d in datasets])
+    a1 = SSIcov_MS(name="c", br=br, ordmax=o, method="cov_mm", hc=dict(NEUTRAL))
+    a2 = SSIdat_MS(name="d", br=br, ordmax=o, method="dat", hc=dict(NEUTRAL))
+    ms.add_algorithms(a1, a2)
+    sha0 = [probes.sha(y["ref"]) + probes.sha(y["mov"]) for y in ms.data]
+    ms.run_all()
+    ms.run_all()
+    ctx.ev("shared-object history")
+    ctx.check([probes.sha(y["ref"]) + probes.sha(y["mov"]) for y in ms.data] == sha0, "ms:shared_data_modified", "a multi-setup SSI run modified the split data shared by the algorithms")
+    for a_, meth_ in ((a1, "cov_mm"), (a2, "dat")):
+        r_ = a_.result
+        if r_.Phi_poles.shape[2] == ndof:
+            judge(ctx, f"truth@PreGER.{meth_}", r_.Lambds[:, o], r_.Fn_poles[:, o], r_.Xi_poles[:, o], r_.Phi_poles[:, o, :], fn, xi, PhiG, lam, tol, "ms_shared")
     # function level
     meth = "cov_mm" if rng.random() < 0.5 else "dat"
     Obs, A, C = ssi.SSI_multi_setup(Ysplit, fs, br, o, meth)
